@@ -291,7 +291,25 @@ func all(tier string) (sets []*engine.Scenario, bounds []int) {
 		addS(racesOnly(sc), b(2, 3))
 	}
 	for _, sc := range c17.ConcScenarios() {
+		concurrentStarts := strings.HasSuffix(sc.Name, "-3")
 		sc.Name = "collectors-" + sc.Name
+		if concurrentStarts {
+			// two tunnels of one client starting at once: the reported time must be the one some
+			// sequential order of the calls gives (the union of the two intervals)
+			inner := sc.Check
+			sc.Check = func(x *vrt.Exec) (string, bool, []*engine.Finding) {
+				obs, nt, fs := inner(x)
+				out := hk.Generic(x, hk.Opts{Races: true})
+				for _, f := range fs {
+					if f.Sig == "tunnel-time-per-key" || f.Sig == "tunnel-time-per-location" {
+						out = append(out, &engine.Finding{Sig: "not-linearizable{collectors}", Msg: "concurrent start/stop calls gave a result no sequential order gives: " + f.Msg})
+					}
+				}
+				return obs, nt, out
+			}
+			addS(sc, b(2, 4))
+			continue
+		}
 		addS(racesOnly(sc), b(2, 4))
 	}
 	return
